@@ -71,9 +71,17 @@ class Shim:
             self.p = None
 
     def _read(self, n):
+        # a shim that does not answer within 300 s is treated as hung: it is killed and the request reported
+        import select
         buf = b""
+        fd = self.p.stdout.fileno()
         while len(buf) < n:
-            chunk = self.p.stdout.read(n - len(buf))
+            r, _, _ = select.select([fd], [], [], 300)
+            if not r:
+                self.p.kill()
+                self.log.write(b"\nVERIF-ABORT: shim-hang (no answer within 300 s)\n")
+                raise EOFError()
+            chunk = os.read(fd, n - len(buf))
             if not chunk:
                 raise EOFError()
             buf += chunk
@@ -112,6 +120,9 @@ class Shim:
 
 
 def sanitizer_summary(text):
+    m = re.search(r"VERIF-ABORT: ([\w-]+)", text)
+    if m:
+        return "abort:" + m.group(1)
     m = re.search(r"SUMMARY: (\w+Sanitizer): ([\w-]+)", text)
     if m:
         return "%s:%s" % (m.group(1), m.group(2))
